@@ -12,14 +12,17 @@ EXPLANATION = ('Proved (structure): codegen_inv selects the Hitzer closed forms 
                'indeterminate per blade, exact integer polynomial coefficients, independent reference product); for every signature of '
                'every dimension d <= 4 (121 algebras) x * num == denom and num * x == denom hold as polynomial identities, i.e. for all '
                'operands; decided by exact normal forms (no solver).  d = 5: the same for one signature per class (5,0,0), (4,1,0), (4,0,1), '
-               '(3,1,1) in the thorough tier only, with the last product kept lazy and associativity (L-assoc); other 5-D signatures, the '
-               'Shirokov scheme (d >= 6), float rounding, and ZeroDivisionError-only-for-singular: bounded stand-in with exact Fractions, '
+               '(3,1,1) ... all 21 classes (p, q, r) in the thorough tier only, with the last product kept lazy and associativity (L-assoc); '
+               'codegen_inv with a fast path for special operand shapes is followed on grade-restricted generic operands (d <= 4); a / b is '
+               '(a * num) / denom with ((a * num) * b == a * denom) on generic operands (d <= 3); the dimension-agnostic Shirokov scheme '
+               '(with power_supply and AdditionChains.minimal_chains) is proved on generic elements of every algebra with d <= 3.  The '
+               'Shirokov scheme on d >= 6, float rounding, and ZeroDivisionError-only-for-singular: bounded stand-in with exact Fractions, '
                'two-sided, sparse/permuted/zero-padded patterns, exact determinant oracle d<=4; power_supply/AdditionChains exhaustive for '
                'exponents <= 40.')
 TRUSTED = ['z3 5.1 (python API)', 'kvc VC generator', 'CPython ast module']
 ASSUMPTIONS = [K.ASSUME_CPYTHON, K.ASSUME_TAIL, 'floating point ("to rounding otherwise") is not modelled; exact Fractions only',
                'Shirokov inverse (d >= 6) and the 5-D closed form outside the listed signature classes are checked only on the sampled inputs', 'kingdon\'s product on symbolic operands is the reference product (C01, C02); a right inverse in a finite-dimensional algebra is a left inverse (used for d = 5 only)']
-ASSUMED = ['codegen_shirokov_inv body: bounded stand-in only', 'codegen_hitzer_inv for d = 5: proved for four signature classes (thorough tier), bounded otherwise', 'power_supply / AdditionChains: bounded (exhaustive k<=40)']
+ASSUMED = ['codegen_shirokov_inv for d >= 6: same code as proved for d <= 3, bounded stand-in on the real dimensions', 'codegen_hitzer_inv for d = 5: proved per signature class in the thorough tier, bounded in the quick tier', 'power_supply / AdditionChains: bounded (exhaustive k<=40)']
 
 
 def build(H, tier, seed):
@@ -27,6 +30,8 @@ def build(H, tier, seed):
     from contracts import inverse_c as I
     I.vc_hitzer_inv(H, tier)
     I.vc_inv_patterns(H, tier)
+    I.vc_shirokov_small(H, tier)
+    I.vc_div_generic(H, tier)
     M.vc_mv_delegations(H, methods_binary=['div', '__truediv__'], methods_unary=['inv'])
     # __rtruediv__: operand order matters only for non-numbers on the left (C16); number/x is in the stand-in
 
